@@ -137,7 +137,7 @@ def isJson (e : Env) : Except String Bool :=
 def contentLength (e : Env) : Except String (Option Int) := getContentLength e.contentLength e.transferEncoding
 def maxForwards (e : Env) : Except String (Option Int) := requestMaxForwards e.maxForwards
 def accessControlRequestHeaders (e : Env) := requestAccessControlRequestHeaders e.accessControlRequestHeaders
-def pragma (e : Env) : List Str := parseSetHeader (e.pragma.getD [])
+def pragma (e : Env) : List Str := parseSetMembers (e.pragma.getD [])
 
 /-- `Request.access_route` -/
 def accessRoute (e : Env) : List Str :=
